@@ -19,6 +19,7 @@ type Opts struct {
 	NameReuse   bool // the same variable names with different types in different files/methods (C07)
 	ScopedReuse bool // parameter/local names reused across the methods of a unit with different types, and shadowing fields (C02)
 	ExtraImps   bool // imports that are unused / wildcard / static (C06)
+	Anon        bool // anonymous classes as arguments (new Runnable() { public void run() { ... } })
 	MaxMethods  int  // default 5
 	NoCtors     bool
 }
